@@ -4,6 +4,7 @@
   class mode.  Helper lemmas are in Proofs/Init*.lean.
 -/
 import AttrsModel.Proofs.InitWf
+import AttrsModel.Proofs.InitIR
 
 namespace Attrs.C01
 open Attrs.Init
@@ -179,5 +180,130 @@ theorem C01_known_slot_belief_witness :
 example : wf { k3Witness with run := { k3Witness.run with cfg := { k3Witness.run.cfg with slots := true } } } = true ∧
     known { k3Witness with run := { k3Witness.run with cfg := { k3Witness.run.cfg with slots := true } } } = [] := by
   refine ⟨by decide, by decide⟩
+
+end Attrs.C01
+
+/-! ## T3 — the generated source as a script (Model/InitIR.lean, Spec/C01Script.lean)
+
+  The harness parses the real source text of every sampled class's initializer into the IR and the driver checks
+  it to be *syntactically* `genInit` of the class.  The theorems below make that agreement mean something:
+  executing `genInit r` with the IR interpreter is the direct semantics `body r` which every theorem above
+  (and every C02 theorem) is about — for every class description and every environment / call shape. -/
+namespace Attrs.C01
+open Attrs.Init
+
+theorem names_nodup_of_wf (c : Case) (hwf : wf c = true) : (c.run.attrs.map (·.name)).Nodup := by
+  unfold wf at hwf
+  simp only [Bool.and_eq_true, eff_attrs] at hwf
+  exact of_decide_eq_true hwf.1.1.1.1.1.1.2
+
+/-- **C01_script_params**: the parameter list of the generated script (names, keyword-only flags, default
+    expressions `attr_dict['f'].default` / `NOTHING`) denotes the model's parameter list. -/
+theorem C01_script_params (attrs : List Attr) : (genParams attrs).map IParam.toParam = params attrs :=
+  genParams_toParam attrs
+
+/-- **C01_script_correct** (compiler correctness of the model generator): for every class description with
+    distinct field names and every environment, executing the script `genInit r` — pre-init call, local
+    declarations, per-field stores through the three techniques with factory / converter calls and the
+    `is not NOTHING` test, the validator block under the switch, post-init, hash-cache reset,
+    `BaseException.__init__` — yields exactly the state `body r env` (the semantics of C01/C02), followed for
+    exception classes by what `runInit` does with `BaseException.__init__`'s arguments (`withExc`); in
+    particular no local is used before its declaration (no NameError). -/
+theorem C01_script_correct (r : RunIn) (env : List (String × Val)) (hnd : (r.attrs.map (·.name)).Nodup) :
+    (execScript (genInit r) r env).st = (withExc r (body r env)).1 ∧
+    (execScript (genInit r) r env).excArgs = (withExc r (body r env)).2 :=
+  script_correct r env hnd
+
+/-- the same for classes that are not `auto_exc` exception classes: exactly `body` -/
+theorem C01_script_correct_plain (r : RunIn) (env : List (String × Val)) (hnd : (r.attrs.map (·.name)).Nodup)
+    (he : r.cfg.isExc = false) :
+    (execScript (genInit r) r env).st = body r env ∧ (execScript (genInit r) r env).excArgs = none := by
+  have h := script_correct r env hnd
+  unfold withExc at h
+  simpa [he] using h
+
+/-- **C01_script_runInit**: the observation of a call of the generated script (binding with the script's own
+    parameter list, then `execScript`) is the model's observation `runInit`, for every call shape — well-formed
+    or not. -/
+theorem C01_script_runInit (c : Case) (hnd : (c.run.attrs.map (·.name)).Nodup) :
+    scriptObs (genInit c.eff) c.eff c.call = runInit c :=
+  scriptObs_genInit c hnd
+
+/-- the script does not depend on the run-time facts (which callback fails, the validator switch) -/
+theorem genInit_at (sc : Script.Case) (call : Call) (fault : Option EventId) (runV : Bool) :
+    genInit (sc.at call fault runV).eff = genInit sc.eff := rfl
+
+/-- **C01_script_transfer**: if the script parsed from a class's real source *is* the model's script (the T3
+    agreement checked for every sampled class), then every run of that text — any call, any failing callback,
+    validators on or off — is `runInit` of the class. -/
+theorem C01_script_transfer (sc : Script.Case) (o : Script.Obs) (hag : Script.model sc = o)
+    (hnd : (sc.run.attrs.map (·.name)).Nodup) (call : Call) (fault : Option EventId) (runV : Bool) :
+    scriptObs o.script (sc.at call fault runV).eff call = runInit (sc.at call fault runV) := by
+  subst hag
+  show scriptObs (genInit sc.eff) _ _ = _
+  rw [← genInit_at sc call fault runV]
+  exact scriptObs_genInit (sc.at call fault runV) hnd
+
+/-- **C01_script_values**: on a class whose real source agrees with the model's script, *every* well-formed
+    call (not only the sampled ones) of that source stores converter(argument | default | fresh factory value)
+    in every participating field and leaves the others unset. -/
+theorem C01_script_values (sc : Script.Case) (o : Script.Obs) (hag : Script.model sc = o) (call : Call) (runV : Bool)
+    (hwf : wf (sc.at call none runV) = true) (hk : known (sc.at call none runV) = [])
+    (hok : callOk (params sc.run.attrs) call = true) :
+    (scriptObs o.script (sc.at call none runV).eff call).exc = none ∧
+    (scriptObs o.script (sc.at call none runV).eff call).values =
+      sc.run.attrs.map (fun a => (a.name, expectedValue sc.run.attrs call a)) := by
+  rw [C01_script_transfer sc o hag (names_nodup_of_wf _ hwf) call none runV]
+  exact C01_values (sc.at call none runV) hwf hk hok
+
+/-! ### the script check on a concrete class (non-vacuity and sensitivity of `Script.spec`) -/
+
+def facAttr (n : String) (conv : Option Conv) (v : Nat) : Attr :=
+  { name := n, alias := n, dflt := .factory false, init := true, kwOnly := false, conv := conv,
+    validators := v, onSet := .unset, isSlot := false, type := none, convType := none }
+
+/-- a frozen dict class with hash caching, pre-init taking arguments, post-init and three optional factory
+    parameters `a` (with a converter taking the instance), `b`, `c` (with a validator) -/
+def threeFactories : Script.Case :=
+  { run := { cfg := { frozen := true, slots := false, cacheHash := true, isExc := false, pre := .withArgs,
+                      post := true, clsHook := false, runValidators := true, collectByMro := true },
+             attrs := [facAttr "a" (some { takesSelf := true, takesField := false }) 0, facAttr "b" none 0,
+                       facAttr "c" none 1],
+             own := ["a", "b", "c"], bases := [], cacheIsSlot := false, fault := none },
+    isDefine := true, clsOnSet := .unset }
+
+/-- the model's script with the `is not NOTHING` test of the LAST parameter looking at the first one -/
+def wrongTestScript : InitScript :=
+  { (Script.model threeFactories).script with
+    body := (Script.model threeFactories).script.body.map (fun s => match s with
+      | .ifNotNothing "c" t e => .ifNotNothing "a" t e
+      | s => s) }
+
+/-- the model's script with the two local declarations in the other order (a harmless rewrite) -/
+def swappedDeclsScript : InitScript :=
+  { (Script.model threeFactories).script with
+    body := match (Script.model threeFactories).script.body with
+      | p :: d1 :: d2 :: rest => p :: d2 :: d1 :: rest
+      | b => b }
+
+/-- **C01_script_spec_nonvacuous**: on the well-formed class `threeFactories` the script check's specification
+    holds of the model's script — all 8 subsets of supplied parameters, every callback failing in turn,
+    validators on and off. -/
+theorem C01_script_spec_nonvacuous :
+    Script.wf threeFactories = true ∧ Script.known threeFactories = [] ∧
+    Script.spec threeFactories (Script.model threeFactories) = true := by
+  refine ⟨by decide +kernel, by decide +kernel, by decide +kernel⟩
+
+/-- **C01_script_spec_rejects**: a script that mishandles one call shape (only the last optional parameter
+    supplied, among others) violates the specification of the script check — whichever calls are sampled. -/
+theorem C01_script_spec_rejects :
+    Script.spec threeFactories { script := wrongTestScript } = false := by decide +kernel
+
+/-- **C01_script_spec_accepts_rewrite**: a behaviour-preserving rewrite differs from the model's script (a
+    disagreement) but still satisfies the specification (so it is not reported as a failing input). -/
+theorem C01_script_spec_accepts_rewrite :
+    swappedDeclsScript ≠ (Script.model threeFactories).script ∧
+    Script.spec threeFactories { script := swappedDeclsScript } = true := by
+  refine ⟨by decide +kernel, by decide +kernel⟩
 
 end Attrs.C01
